@@ -517,6 +517,15 @@ func init() {
 	}
 	// C13: token classification, literal readers, type exclusivity
 	suites["c13"] = func(e *emitter, r *rng, thorough bool) {
+		// type exclusivity on a reused reader: after a failing call, null is still refused by
+		// ReadArray / ReadObject (and read as nil by ReadValue)
+		for _, bad := range []string{"[1,", `{"a":`, "[[[", `{"a":[1,{"b":`, "[1e999]", `{"k":tru}`, "", "x"} {
+			for _, op := range []string{"ra", "ro", "rv"} {
+				for _, nl := range []string{"null", " \t\r\nnull", "null,", "null]"} {
+					e.emit("rhist %s:%s ra:%s ro:%s rv:%s ra:%s", op, hs([]byte(bad)), hs([]byte(nl)), hs([]byte(nl)), hs([]byte(nl)), hs([]byte(nl)))
+				}
+			}
+		}
 		wss := []string{"", " ", "\t", "\r", "\n", "  ", " \t", "\r\n", "\n\n\n", " \t\r"}
 		for _, ws := range wss {
 			for c := 0; c < 256; c++ {
